@@ -24,6 +24,22 @@ use crate::env::TestBed;
 use crate::gen::*;
 use super::history::{concrete, slurm};
 
+/// Where the events recorded by the H4 hooks during the C33 runs go (ndjson for Trace_Serve.tla).
+static TRACE_OUT: Mutex<Option<std::fs::File>> = Mutex::new(None);
+
+fn trace_begin() {
+    if TRACE_OUT.lock().unwrap().is_some() { routinator::verif::trace_start(); }
+}
+
+fn trace_end() {
+    use std::io::Write;
+    if let Some(f) = TRACE_OUT.lock().unwrap().as_mut() {
+        let events = routinator::verif::trace_take();
+        let _ = writeln!(f, "{{\"ev\":\"Reset\",\"seq\":0,\"t\":\"\"}}");
+        for e in &events { let _ = writeln!(f, "{e}"); }
+    }
+}
+
 fn cli_child(argv_file: &str) -> i32 {
     let argv: Vec<String> = match std::fs::read_to_string(argv_file).ok().and_then(|t| serde_json::from_str(&t).ok()) {
         Some(a) => a,
@@ -290,6 +306,9 @@ pub fn main(args: &Args) -> i32 {
 
     // ---------------- C33
     if args.wants("C33") {
+        if let Some(path) = args.opt("trace") {
+            *TRACE_OUT.lock().unwrap() = Some(std::fs::File::create(path).expect("trace file"));
+        }
         let mut seqs: BTreeSet<Vec<String>> = BTreeSet::new();
         for b in &behaviours {
             if b["kind"] != "loop" { continue }
@@ -340,6 +359,7 @@ fn strip_generated(body: &[u8]) -> Vec<u8> {
 
 fn c33_one(rep: &mut Report, outs: &[String]) {
     let mut fx = Fixture::start(|c| { c.history_size = 10; });
+    trace_begin();
     let port = fx.http_port;
     let rtr_port = fx.rtr_port;
     let history = fx.history.clone();
@@ -384,6 +404,7 @@ fn c33_one(rep: &mut Report, outs: &[String]) {
     routinator::verif::set_outcomes(None);
     // unblock pending long-polls
     let _ = fx.process_once(&slurm(&concrete(3 - d)), false);
+    trace_end();
     rep.trace("C33");
     rep.sample("C33", b);
 }
@@ -416,6 +437,7 @@ fn c33_world(rep: &mut Report, factory: &Factory, kind: &str) {
     let mut engine = match routinator::engine::Engine::new(&fx.config, true) { Ok(e) => e, Err(_) => { rep.divergence("C33", "Engine::new failed"); return } };
     if engine.ignite().is_err() { rep.divergence("C33", "engine ignite failed"); return }
     fx.engine = engine;
+    trace_begin();
     let port = fx.http_port;
     let rtr_port = fx.rtr_port;
     let history = fx.history.clone();
@@ -478,6 +500,7 @@ fn c33_world(rep: &mut Report, factory: &Factory, kind: &str) {
     // unblock the long-poll: repair the store and run again
     let _ = std::fs::remove_file(&files[0]);
     let _ = fx.process_once(&none, false);
+    trace_end();
     rep.trace("C33");
 }
 
